@@ -20,6 +20,11 @@ PRIMS = ["STRING", "INTEGER", "ANY", "DOUBLE", "SAFELONG", "BOOLEAN", "RID", "UU
 # abstract -> IR
 
 
+# an external reference says nothing about log safety, whatever its fallback type is: these fallbacks are all safe
+EXT_TYPES = [ir.enum_("ExtSafeEnum", ["A", "B"]), ir.alias_("ExtSafeAlias", ir.prim("STRING"), "safe"),
+             ir.object_("ExtSafeObj", [ir.field("a", ir.prim("STRING"), "safe")])]
+
+
 def atom_type(a, rng, in_key=False):
     if a == 0:
         k = rng.below(8)
@@ -27,6 +32,8 @@ def atom_type(a, rng, in_key=False):
             return ir.prim(rng.choice(["STRING", "INTEGER", "RID", "UUID", "SAFELONG"]))
         if k == 0:
             return ir.external(ir.prim("STRING"))
+        if k == 1:
+            return ir.external(ir.ref(rng.choice(["ExtSafeEnum", "ExtSafeAlias", "ExtSafeObj"])), name="ExtOf%d" % rng.below(3))
         return ir.prim(rng.choice(PRIMS))
     if a == -1:
         return ir.prim("BEARERTOKEN")
@@ -111,7 +118,10 @@ def arg_def(j, a, rng):
         else:
             tags = ["safe"]
     safety = None if a["decl"] == "undeclared" else a["decl"]
-    if len(e) == 1 and e[0] <= 0:
+    if len(e) == 1 and e[0] == 0 and rng.chance(1, 5):
+        kind = "body"
+        ty = atom_type(0, rng)          # sometimes an external reference with a safe fallback
+    elif len(e) == 1 and e[0] <= 0:
         kind = rng.choice(["query", "header", "body", "path"])
         ty = atom_type(e[0], rng) if e[0] == -1 else ir.prim(rng.choice(["STRING", "INTEGER", "RID", "BOOLEAN"]))
         if kind == "query" and rng.chance(1, 3):
@@ -177,7 +187,7 @@ def case_to_ir(case, rng, layout, argmap=None):
                                        [ir.endpoint("e%d" % (k + 1), "POST", ep_path("/s%d/e%d" % (si + 1, k + 1), e), e)
                                         for k, e in enumerate(eps)]))
         services = [s for s in services if s["endpoints"]]
-    return ir.definition(types=types, services=services)
+    return ir.definition(types=types + EXT_TYPES, services=services)
 
 
 # ---------------------------------------------------------------------------------------------
